@@ -7,9 +7,11 @@ Pat(L) == { Rep("9", L), "1" \o Rep("0", L - 1), Rep("5", L), SubSeq("1234567890
           \cup (IF L >= 2 THEN { "1" \o Rep("0", L - 2) \o "1", "9" \o Rep("0", L - 2) \o "5" } ELSE {"0", "7"})
 QInts == UNION { Pat(L) : L \in {1, 3, 4, 6, 7, 10, 15} }
 TInts == UNION { Pat(L) : L \in 1..15 }
-QFracs == {"", "5", "50", "125", "12345678901234", "123456789012345", "000123456789012", "100000000000001"}
+QFracs == {"", "5", "50", "125", "12345678901234", "123456789012345", "000123456789012", "100000000000001",
+           "00000000123456789012345", "0000000000000000125", "00000000000000000000905" }
 TFracs == {"", "5", "05", "50", "001", "125", "999"} \cup { SubSeq("123456789012345", 1, L) : L \in 8..15 }
-          \cup { "000123456789012", "100000000000001", "000000000000001", "999999999999999", "00000000123456789012345" }
+          \cup { "000123456789012", "100000000000001", "000000000000001", "999999999999999", "00000000123456789012345",
+               "0000000000000000125", "00000000000000000000905", "000000000000000123456789012345" }
 (* at most 15 significant digits in total (leading zeros of 0.000ddd do not count); grouping only from 4 integer digits *)
 Keep(c) == TRUE
 AllCases == TLCEval({ c \in Cases : SigDigits(c.num[2], c.num[3]) <= 15 })
